@@ -21,6 +21,7 @@ theorem C12_scanner_pins_patterns :
       "[a-zA-Z]+(\\^-?[0-9]+|\\^\\(-?[0-9]+/[0-9]+\\))?|/|\\*|\\(([^()]|\\^\\(-?[0-9]+/[0-9]+\\))*\\)" ∧
     Gen.unitExpPatternSrc = "[a-zA-Z]+(\\^-?[0-9]+|\\^\\(-?[0-9]+/[0-9]+\\))" ∧
     Gen.bracketPatternSrc = "\\(.*?\\)" ∧
+    Gen.patternFlags = [("token", ""), ("bracket", "DOTALL"), ("unitexp", ""), ("operator", "")] ∧
     Gen.operatorPatternSrc = "[/*]" ∧
     Gen.validityPatternSrc = "<cover>" ∧
     Gen.lexDotFrom = "⋅" ∧ Gen.lexDotTo = "*" ∧ Gen.dotString = "⋅" ∧
